@@ -23,7 +23,7 @@ PEER_BLOCKING = ("ProxiedStream::create_from_tokio", "AsyncReadExt::read", "Asyn
                  "AsyncWriteExt::flush", "tokio::io::copy", "copy_bidirectional")
 LOOP_ALLOWED = ("TcpListener::accept", "CancellationToken::cancelled", "WaitForCancellationFuture", "tokio::task::yield_now")
 TRIAGED = {"AsyncWriteExt::shutdown": "half-close of a refused connection: TcpStream::poll_shutdown issues shutdown(2) and returns; it does not wait for the peer"}
-BLOCKING_STD = ("std::thread::sleep", "std::net::TcpStream::connect", "std::net::TcpListener::accept", "std::fs::read",
+BLOCKING_STD = ("set_linger", "SockRef::<'s>::set_linger", "TcpStream::set_linger", "std::thread::sleep", "std::net::TcpStream::connect", "std::net::TcpListener::accept", "std::fs::read",
                 "std::fs::File::open", "std::fs::read_to_string", "Runtime::block_on", "Handle::block_on", "futures::executor::block_on",
                 "std::io::Read::read", "std::sync::mpsc::Receiver::recv", "std::thread::JoinHandle::join")
 
